@@ -47,6 +47,10 @@ def configs(tier):
          dict(clock=60e6, fs_only=False, speeds=["HIGH", "FULL", "LOW"], interfaces=1),
          dict(clock=12e6, fs_only=True, speeds=["FULL"], interfaces=1),
          dict(clock=60e6, fs_only=True, speeds=["FULL"], interfaces=2)]
+    if tier != "quick":
+        c += [dict(clock=60e6, fs_only=False, speeds=["HIGH", "FULL", "LOW"], interfaces=2),
+              dict(clock=60e6, fs_only=False, speeds=["FULL", "LOW"], interfaces=1),
+              dict(clock=12e6, fs_only=True, speeds=["FULL"], interfaces=3)]
     return c
 
 
